@@ -18,6 +18,7 @@ fn condvar_exec(len: usize) -> (ManuallyDrop<crate::rt::Execution>, Condvar, [us
     let w0: usize = kani::any();
     let w1: usize = kani::any();
     kani::assume(w0 < N && w1 < N && w0 != w1 && w0 != a && w1 != a);
+    kani::assume(wf_thread_ops(&set));
     let mut q = VecDeque::with_capacity(4);
     if len >= 1 {
         q.push_back(id_of(&set, w0));
